@@ -79,6 +79,17 @@ func (e *Engine) invoke(st *State, recv Val, method *types.Func, args []Val, rt 
 				return e.staticCall(st, fn, append([]Val{recv}, args...), nil, rt, in, depth)
 			}
 		}
+		if o, ok := recv.(*Opaque); ok && o.Fn == "context.Background" {
+			// the background context is never cancelled, has no deadline and no values
+			switch name {
+			case "Err":
+				return []Outcome{valueOutcome(st, &ErrVal{IsNil: true})}
+			case "Done":
+				return []Outcome{valueOutcome(st, &Opaque{Key: "nil", Type: rt})}
+			case "Value":
+				return []Outcome{valueOutcome(st, &Opaque{Key: "nil", Type: rt})}
+			}
+		}
 		if o, ok := recv.(*Opaque); ok && o.Dyn != nil {
 			if fn := e.lookupMethod(o.Dyn, method); fn != nil {
 				return e.staticCall(st, fn, append([]Val{recv}, args...), nil, rt, in, depth)
@@ -353,6 +364,18 @@ func (e *Engine) model(st *State, name string, fn *ssa.Function, args []Val, rt 
 	switch name {
 	case "math.Pow":
 		return one(e.A.App("pow", rt, args[0], args[1]))
+	case "math.IsNaN", "math.IsInf":
+		// the value domain of the forms is the reals: NaN and ±Inf operands are outside the model
+		// (as for math.Min/Max), so guards against them are not taken
+		return one(boolConst(false))
+	case "context.Background", "context.TODO":
+		return one(&Opaque{Key: "context.Background", Type: rt, Fn: "context.Background"})
+	case "(image.Rectangle).Intersect":
+		// r.Intersect(r) is r (the zero rectangle when r is empty: no pixel either way)
+		if len(args) == 2 && valKey(args[0]) == valKey(args[1]) {
+			return one(args[0])
+		}
+		return nil, false
 	case "math.Max", "math.Min":
 		// max/min of two numbers as a case split (NaN operands are outside the model)
 		x, okX := args[0].(*Form)
@@ -743,6 +766,21 @@ func (e *Engine) readerMethod(st *State, rd *ReaderVal, name string, args []Val,
 		return outs, true
 	case "Read":
 		return e.readInto(st, rd, args[0], rt, "Read", in)
+	case "Discard":
+		// (*bufio.Reader).Discard(n): skips the next n bytes, or fails when fewer remain
+		if len(args) == 1 {
+			if n, ok := args[0].(*Form); ok {
+				pos := e.streamPos(st, rd.S)
+				var outs []Outcome
+				if e.FailReads {
+					bad := st.clone()
+					bad.addEvent(Event{Kind: "readfail", Fn: "Discard", Args: []Val{pos, n}, Pos: in.Pos()})
+					outs = append(outs, valueOutcome(bad, Tuple{e.A.App("short", types.Typ[types.Int], pos), &ErrVal{IsNil: false, Desc: "Discard failed"}}))
+				}
+				st.pos[rd.S] = pos.Add(n)
+				return append([]Outcome{valueOutcome(st, Tuple{n, &ErrVal{IsNil: true}})}, outs...), true
+			}
+		}
 	case "Len":
 		if l := e.streamLen(rd.S); l != nil {
 			return []Outcome{valueOutcome(st, l.Sub(e.streamPos(st, rd.S)))}, true
